@@ -50,7 +50,8 @@ def session(name, seed=0):
     if name == 'S3':      # two played boards (WeakBid: the first seat to call opens 1C)
         return mkboards(2, seed), lambda: bundled_clients('weak', seed=seed)
     if name == 'S4':      # three boards: played, passed out, contested auction with double and redouble
-        sc = {'N': [[1], [], [4, 38]], 'E': [[], [], [37]], 'S': [[], [], [9]], 'W': [[], [], [12]]}
+        # board 3, whoever deals: North 1S, East doubles, North redoubles (1SXX by North)
+        sc = {'N': [[1], [], [4, 38]], 'E': [[], [], [37]], 'S': [[], [], []], 'W': [[], [], []]}
         return mkboards(3, seed), lambda: bundled_clients('script', scripts=sc, seed=seed)
     if name == 'S5':      # one board, arrival order W S E N
         return mkboards(1, seed), lambda: bundled_clients('weak', order='WSEN', seed=seed)
